@@ -618,6 +618,15 @@ def dstepCore (st : DState) (line : String) : DState × Option String :=
     match parseProt b1 b2 b3, parseProt a1 a2 a3 with
     | some b, some a => (st, some (if Spec.importUnchanged b a then "ok" else "CHANGED-ON-FAILURE"))
     | _, _ => bad st line
+  -- hypothesis of C07_entry_matches_spec, evaluated: does the parser give `regexify pat` the anchored shape
+  -- around the parse of the body?  (a pattern like `a)(b` does not: its wrapped form parses, its body does not)
+  | ["jshape", pat] =>
+    match unhexStr pat with
+    | some pat =>
+      let body := if pat.isEmpty then ".*" else pat
+      let anch (r : Re) : Re := Re.cat (Re.cat (Re.cat Re.eps Re.bol) r) Re.eol
+      (st, some (if ReParse.parse (regexify pat) == (ReParse.parse ("(?i)" ++ body)).map anch then "ok" else "DIFFERS"))
+    | none => bad st line
   -- judge C07: the implementation answered `res` to Check(client, account, op): does the Lean
   -- specification (first bearing item, whole-name matching) say the same?
   | ["jcheck", c, acct, op, res] =>
